@@ -45,14 +45,17 @@ def evaluate(patch_rel, props, fixture, cache):
             r = subprocess.run(["patch", "-p1", "-s", "-i", patch], cwd=d, capture_output=True, text=True)
             if r.returncode != 0:
                 return {"status": "skipped", "why": "patch does not apply to the current tree"}
-        try:
-            fact, info = factsmod.build_facts("default+bzip2", repo=d, cache=cache, scratch=True)
-        except factsmod.InfraError as e:
-            return {"status": "skipped", "why": "variant does not compile: %s" % str(e)[-200:]}
-        f = Facts(fact)
-        out = {}
-        for p in props:
-            out[p] = [fd["key"] for fd in run_rules(p, f, fixture)]
+        out = {p: [] for p in props}
+        for cfg in factsmod.QUICK_CONFIGS:       # what the quick tier analyses
+            try:
+                fact, info = factsmod.build_facts(cfg, repo=d, cache=cache, scratch=True)
+            except factsmod.InfraError as e:
+                return {"status": "skipped", "why": "variant does not compile (%s): %s" % (cfg, str(e)[-200:])}
+            f = Facts(fact)
+            for p in props:
+                for fd in run_rules(p, f, fixture, cfg):
+                    if fd["key"] not in out[p]:
+                        out[p].append(fd["key"])
         return {"status": "ran", "findings": out}
     finally:
         shutil.rmtree(d, ignore_errors=True)
